@@ -32,8 +32,28 @@ def run(ctx):
         cov["transitions"] += jb["transitions"]; cov["leaves"] += jb["leaves"]; cov["merges"] += jb["merges"]
         cov["early_returns"] += jb["early"]; cov["diverged_leaves"] += jb["diverged_leaves"]; cov["inner_uturns"] += jb["uturn_inner"]
         cov["max_tree_depth"] = max(cov["max_tree_depth"], jb["depth_max"])
+    pat = {"merge_first_half_empty": 0, "merge_second_half_empty": 0, "merge_both_empty": 0, "merge_second_half_stopped": 0,
+           "merge_chose_second": 0, "merge_in_backward_subtree": 0, "doubling_accepted": 0, "doubling_of_stopped_subtree": 0,
+           "doubling_without_admissible_point": 0, "leaf_outside_slice_not_diverged": 0, "leaf_backward": 0}
+    for e in allev:
+        if e["e"] == "merge":
+            pat["merge_first_half_empty"] += e["n1"] == 0 and e["n2"] > 0
+            pat["merge_second_half_empty"] += e["n1"] > 0 and e["n2"] == 0
+            pat["merge_both_empty"] += e["n1"] == 0 and e["n2"] == 0
+            pat["merge_second_half_stopped"] += e["s2"] == 0
+            pat["merge_chose_second"] += e["cand"] == e["c2"]
+            pat["merge_in_backward_subtree"] += e["hi"] <= 0
+        elif e["e"] == "double":
+            pat["doubling_accepted"] += bool(e["accepted"])
+            pat["doubling_of_stopped_subtree"] += e["sp"] == 0
+            pat["doubling_without_admissible_point"] += e["np"] == 0
+        elif e["e"] == "leaf":
+            pat["leaf_outside_slice_not_diverged"] += e["n"] == 0 and e["s"] == 1
+            pat["leaf_backward"] += e["v"] == -1
+    cov.update({k: int(v) for k, v in pat.items()})
     ctx.cov["nuts_actions_exercised"] = cov
-    missing = [k for k in ("early_returns", "diverged_leaves", "inner_uturns") if cov[k] == 0]
+    missing = [k for k in ("early_returns", "diverged_leaves", "inner_uturns", "merge_first_half_empty", "merge_second_half_empty",
+                           "merge_both_empty", "merge_second_half_stopped", "doubling_of_stopped_subtree") if cov[k] == 0]
     if cov["max_tree_depth"] < 5:
         missing.append("tree depth >= 5")
     ctx.cov["nuts_actions_not_exercised"] = missing
